@@ -799,8 +799,10 @@ func batchProperty(t *rapid.T, name string, shares uint8, large bool, maxBatch i
 			var hv *harnessViol
 			switch {
 			case errors.As(err, &pe):
+				// the client must refuse an invalid measurement cleanly
 				vlib.Class(isub, label+" → shard-panic:"+vlib.PanicClass(pe.p))
-				vlib.Sample(isub, "shard-panic", fmt.Sprintf("%s Shard(%v) panics: %v", c.desc, m, pe.p))
+				vlib.Report(t, "C19/panic/"+name+"/Shard/"+vlib.PanicClass(pe.p), fmt.Sprintf("%s: Shard(%v) (%s, outside the valid set) panics instead of returning an error: %v\n%s", c.desc, m, label, pe.p, pe.st))
+				return false
 			case errors.As(err, &hv):
 				vlib.Report(t, hv.key, c.desc+": "+hv.detail)
 				return false
